@@ -7,6 +7,7 @@ package main
 //                 that the writing function did not allocate itself (i.e. only constructors write it).
 
 import (
+	"sort"
 	"fmt"
 	"go/token"
 	"go/types"
@@ -442,6 +443,24 @@ func (tr *FnTrans) frameChecks() {
 			probs = append(probs, tr.eng.globalWriters(tr.fn.Pkg, g)...)
 		}
 		tr.syntactic("frame:global-invariant", "package variables in ["+src+"] are assigned only by package initialisation", probs)
+	}
+	if tr.c != nil {
+		var ords []int
+		for ord := range tr.c.Loops {
+			ords = append(ords, ord)
+		}
+		sort.Ints(ords)
+		for _, ord := range ords {
+			found := false
+			for _, o := range tr.loopOf {
+				if o == ord {
+					found = true
+				}
+			}
+			if !found {
+				tr.syntactic(fmt.Sprintf("loop-exists[%d]", ord), fmt.Sprintf("the loop the contract annotates (loop %d) exists", ord), []string{fmt.Sprintf("%s has %d loops", tr.name, len(tr.loopOf))})
+			}
+		}
 	}
 	for _, oc := range tr.onlyChecks {
 		tr.syntactic("site-only["+oc.sd.Alias+"]", "the function calls "+oc.sd.Pattern+" at exactly one place, outside any loop (at most once per execution)", oc.probs)
